@@ -290,13 +290,12 @@ class C03(Check):
             bad("no-diagnostic-crash", f"compiler / tool ended with {res.cls}: {driver.panic_message(res) or res.err[-200:]}")
         elif res.exit == 0:
             bad("accepted", f"the ill-typed program was accepted and ran to completion; stdout {res.out[-200:]!r}")
-        elif "Did not compile" not in res.err:
+        elif not driver.compile_rejected(res):
             bad("accepted-then-failed", f"no compile-time diagnostic; the program was executed and failed at run time: {res.err[-300:]}")
         else:
-            before = res.out.split(" -->")[0]
-            if "MARK" in before or "MARK" in [l.strip() for l in res.out.split("\n")]:
+            if "MARK" in [l.strip() for l in res.out.split("\n")]:
                 bad("executed", "the marker was printed although compilation failed")
-            locs = re.findall(r"--> ([^\s:]+):(\d+):(\d+)", text)
+            locs = re.findall(r"([^\s:()\[\]'\"]+\.ms):(\d+):(\d+)", text)
             if not locs:
                 bad("no-position", f"diagnostic names no file:line:col: {text[-300:]}")
             else:
